@@ -35,10 +35,12 @@ def r1(ctx):
     p = P.body(R + '::parse::{closure#0}')
     tk = one(p.calls(r'AsyncReadExt::take$'), 'reader.take(size) in NtsRecord::parse')
     a = [S(x) for x in p.call_args(tk)]
-    ctx.check('NtsRecord::parse|body-take', re.search(r'ReadU16', a[1]) is not None or 'size' in N(p.call_args(tk)[1]), 'record body bound is `%s`' % a[1][:100], tk.where(), sample=N(p.call_args(tk)[1]))
+    ctx.check('NtsRecord::parse|body-take', a[0] == 'reader' and re.search(r'ReadU16', a[1]) is not None, 'record body bound is `%s`' % a[1][:100], tk.where(), sample=a[1][:80])
+    bounded = S(p.call_term(tk.data)) if hasattr(p, 'call_term') else None
     for s in p.calls(r'NtsRecord::parse_\w+$'):
-        ctx.check('NtsRecord::parse|%s|reads-from-take' % short_name(p.callee(s)['def']).split('::')[-1], N(p.call_args(s)[0]) == 'body', 'helper reads from `%s`' % N(p.call_args(s)[0]),
-                  s.where(), sample=N(p.call_args(s)[0]))
+        got = S(p.call_args(s)[0])
+        ctx.check('NtsRecord::parse|%s|reads-from-take' % short_name(p.callee(s)['def']).split('::')[-1], got == 'AsyncReadExt::take(%s, %s)' % (a[0], a[1]),
+                  'helper reads from `%s`, not from the length-bounded record body' % got[:120], s.where(), sample=got[:60])
 
 
 def r2(ctx):
